@@ -17,7 +17,8 @@ def run(c):
         dkvlib.exhaustive(c, dkvlib.consts(MaxOps=4, MaxReads=2, MemCap=24, L0Trigger=1), dkvlib.INV_READ, "Dkv reads exhaustive cap=1 trigger=1")
     n = 150 if q else 1200
     cfgs = [(dkvlib.consts(MaxOps=9, MaxReads=5, MaxLen=48), 0), (dkvlib.consts(MaxOps=9, MaxReads=5, MaxLen=48), 1),
-            (dkvlib.consts(MaxOps=10, MaxReads=5, MaxLen=48, MemCap=24), 2), (dkvlib.consts(MaxOps=10, MaxReads=5, MaxLen=48, MemCap=70, L0Trigger=3), 0)]
+            (dkvlib.consts(MaxOps=10, MaxReads=5, MaxLen=48, MemCap=24), 2), (dkvlib.consts(MaxOps=10, MaxReads=5, MaxLen=48, MemCap=70, L0Trigger=3), 0),
+            (dkvlib.consts(MaxOps=10, MaxReads=5, MaxLen=48, MemCap=200, WalCap=40, L0Trigger=2), 0)]
     if not q:
         cfgs += [(dkvlib.consts(MaxOps=12, MaxReads=6, MaxLen=64, MemCap=24, L0Trigger=1), 1),
                  (dkvlib.consts(MaxOps=12, MaxReads=6, MaxLen=64, MemCap=45, L0Trigger=4), 2)]
